@@ -60,6 +60,7 @@ def run_word(inst, side, pw, ids, x, word, acc, desc, blob0):
         return None, m
     ncalls = len(ent.calls)
     for i, op in enumerate(word):
+        T.clock.advance(3600)      # time passes between start, every serialize / crash+restore and finish
         before = T.canon_instance(cur)
         b1 = T.observe(cur.serialize)
         b2 = T.observe(cur.serialize)
@@ -114,7 +115,7 @@ def check_session(inst, side, pw, ids, x, acc, all_elements, clone):
     blob0 = T.observe(t0.serialize)
     blob0 = blob0[1] if blob0[0] == "ok" else None
     for kind, d in menu:
-        t = copy.copy(t0) if clone else inst.new(side, pw, ids, x)
+        t = T.snapshot(t0) if clone else inst.new(side, pw, ids, x)
         if not clone:
             t.start()
         twin[d] = (T.observe(t.finish, d), after_finish(t))
@@ -140,7 +141,7 @@ def check_session(inst, side, pw, ids, x, acc, all_elements, clone):
             if cur is None:
                 continue
             for kind, d in menu:
-                c2 = copy.copy(cur)
+                c2 = T.snapshot(cur)
                 got = (T.observe(c2.finish, d), after_finish(c2))
                 acc.n(transitions=2, traces=1)
                 judge(F, side, word, kind, d, twin[d], got, desc, acc)
@@ -234,7 +235,7 @@ def _default_path(acc):
                 acc.violation("C08/default-path/%s/restore-raises" % side, {"what": "from_serialized(data) without params= refuses a default-parameter state",
                               "replay": {"default_path": True}, "expected": "instance", "observed": r})
                 break
-            a, b = T.observe(copy.copy(s).finish, d), T.observe(r[1].finish, d)
+            a, b = T.observe(T.snapshot(s).finish, d), T.observe(r[1].finish, d)
             acc.n(transitions=3, traces=1)
             if a != b:
                 acc.violation("C08/default-path/%s/%s" % (side, kind), {"what": "default-parameter session: restored instance differs from the original",
